@@ -951,6 +951,8 @@ UNITS = [
      lambda src: __import__("asynciokernel2lean").generate(src)),
     ("PriorityLock / PriorityTask lock layer", ["Lock.lean"], lambda src: __import__("lock2lean").generate(src)),
     ("CoroStart, _Continuation, coro_eager, cancelling", ["CoroStart.lean"], lambda src: __import__("corostart2lean").generate(src)),
+    ("collections.abc mixins inherited by asynkit classes (stdlib)", ["CollectionsAbc.lean"],
+     lambda src: __import__("collectionsabc2lean").generate(src)),
     ("monitor.py: Monitor, BoundMonitor, GeneratorObject(Iterator)", ["Monitor.lean"],
      lambda src: __import__("monitor2lean").generate(src)),
 ]
